@@ -53,7 +53,7 @@ def register(reg):
             ens.append(('variance-none', 'variance_cutout is None'))
         reg.add(Contract(
             target=f'{S}._make_aperture_cutouts', props=['C16'], kind='method', tag=tag,
-            block=('data_mask', 'variance_cutout'),
+            block=('data_mask', 'variance_cutout'), block_like='~np.isfinite(data_cutout)',
             params={'self': 'ApertureStats@' + tag,
                     'data_cutout': ('arr', 2, 'real', 'nonfinite', 'nonempty'),
                     'apermask': ('record', 'ApertureMaskData', {'data': ('arr', 2, 'real')}),
